@@ -614,6 +614,36 @@ def search_c05(ctx):
     # the diff report is capped, so when the dump differs anywhere every row the implementation publishes is examined
     dump_differs = any(getattr(pr, 'tag', None) == 'registry-dump' for pr in ctx.problems)
     found = 0
+    # "lists exactly the declared units": the declared identifiers of each quantity against what `units()` yields
+    if dump_differs and reg_rows:
+        listed = {}
+        for f in reg_rows:
+            listed.setdefault(f[1], []).append(f[3])
+        for q in t['quantities']:
+            declared_names = [u['name'] for u in q['units']]
+            got_names = listed.get(q['module'], [])
+            if declared_names == got_names:
+                continue
+            missing = [n for n in declared_names if n not in got_names]
+            extra = [n for n in got_names if n not in declared_names]
+            twice = sorted(set(n for n in got_names if got_names.count(n) > 1))
+            what = []
+            if missing:
+                what.append('declared but not listed: ' + ', '.join(missing[:6]))
+            if extra:
+                what.append('listed but not declared: ' + ', '.join(extra[:6]))
+            if twice:
+                what.append('listed twice: ' + ', '.join(twice[:6]))
+            if not what:
+                continue        # another order only: the property does not fix the order
+            ctx.problems.append(Problem(
+                'property-fails', '%s::units() does not list exactly the declared units (%d listed, %d declared): %s' % (
+                    q['module'], len(got_names), len(declared_names), '; '.join(what)),
+                line='units %s listed=%d declared=%d' % (q['module'], len(got_names), len(declared_names)),
+                failing_input=True, cmd=bin_path('reg', False, 'fl'), tag='registry-membership'))
+            found += 1
+            if found >= 30:
+                break
     for f in (reg_rows if dump_differs else []):
         if len(f) < 7 or found >= 30:
             continue
